@@ -78,6 +78,20 @@ def plan(tier, seed):
                    "tables": TABLES, "multisets": len(multisets(14))})
     for ci in range(len(CENTRES)):
         tasks.append(("star", ("star", ci)))
+    els = sorted(misc.ELEMENTS)
+    scopes.append({"name": "every-element", "elements": len(els), "centre_forms": ["[X]", "[X+]", "[X-]", "[XH]", "[XH2-]"],
+                   "substituent_orders": "every multiset with total <= 9", "tables": TABLES,
+                   "desc": "the capacity lookup (listed element, listed charged key, '?' fallback) for every element"})
+    for k in range(0, len(els), 4):
+        tasks.append(("every-element", ("elements", els[k:k + 4])))
+    nc = 6 if thorough else 5
+    scopes.append({"name": "chiral-ring-centres", "n_max": nc, "r_max": 2, "tags": ["[C@]", "[C@@H]", "[N@]", "[S@@]"],
+                   "desc": "every tree shape x ring set x ring-digit order with one tagged centre at every position (the encoder "
+                           "touches these atoms a second time, to invert the tag): the strict verdict must not depend on it",
+                   "tables": TABLES})
+    for n in range(3, nc + 1):
+        for pi, _ in enumerate(E2.parent_vectors(n)):
+            tasks.append(("chiral-ring-centres", ("chiral", n, pi)))
     scopes.append({"name": "dumbbell", "centres": PAIR, "centre_bond": ["-", "=", "#"],
                    "substituents": "every multiset of <= %d substituents on each side" % (4 if thorough else 3),
                    "tables": TABLES})
@@ -298,6 +312,28 @@ def run(task):
             if sum(ms) <= 3:
                 s2 = star(c, ms, lead="C")      # centre with an incoming chain bond
                 check(s2, r)
+    elif arg[0] == "elements":
+        for el in arg[1]:
+            for form in ("[%s]", "[%s+]", "[%s-]", "[%sH]", "[%sH2-]"):
+                for ms in multisets(9):
+                    last = (star(form % el, ms), None)
+                    last = (last[0], check(last[0], r))
+    elif arg[0] == "chiral":
+        _, n, pi = arg
+        par = list(E2.parent_vectors(n))[pi]
+        bt = [""] * n
+        for rings in E2.ring_sets(n, par, 2, 1):
+            for dp in E2.digit_orders(rings):
+                for i in range(n):
+                    for tag in ("[C@]", "[C@@H]", "[N@]", "[S@@]"):
+                        at = ["C"] * n
+                        at[i] = tag
+                        smi = E2.write(n, par, rings, at, bt, digit_perm=dp)
+                        try:
+                            smiread.read_smiles(smi)
+                        except smiread.SmiError:
+                            continue
+                        last = (smi, check(smi, r))
     elif arg[0] == "pair":
         _, a, b, k = arg
         for bo in ("", "=", "#"):
